@@ -57,7 +57,7 @@ class BuildCfg:
         if not self.vec256: d.append("-DSKINNY_VERIF_VEC256_MATH=0")
         return d
     def tag(self):
-        return ("64" if self.w64 else "32") + ("le" if self.le else "be")
+        return ("64" if self.w64 else "32") + ("le" if self.le else "be") + ("" if self.unaligned else "-u0")
     def backends(self):
         b = ["generic"]
         if self.vec128: b.append("vec128")
